@@ -1,6 +1,7 @@
 package checks
 
 import (
+	"encoding/json"
 	"fmt"
 	"os"
 	"path/filepath"
@@ -333,5 +334,196 @@ func mergeErrs(after, before h.Snap, src, dst *h.Tree, filter int) *h.Errs {
 }
 
 func TestC01(t *testing.T) {
-	h.Run(t, "C01", genC01, c01Check)
+	r := h.NewRunner("C01")
+	defer r.Finish(t)
+	h.RunWith(t, r, "", genC01, c01Check)
+	if t.Failed() {
+		return
+	}
+	t.Run("unpriv", func(t *testing.T) {
+		h.ScaleChecks(1, 12, func() { h.RunWith(t, r, "unpriv", genC01Unpriv, c01UnprivCheck) })
+	})
+}
+
+// ---------------------------------------------------------------------------
+// unprivileged receiver with read-only files (both ends run as uid 1000 in a
+// chrooted sub-process; the parent observes as root)
+
+type c01UnprivCase struct {
+	Src      *h.Tree `json:"src"`
+	Dst      *h.Tree `json:"dst"`
+	DiffNone bool    `json:"diffnone"`
+	Notify   bool    `json:"notify"`
+	Capacity int     `json:"capacity"`
+}
+
+var c01UnprivCfg = h.TreeCfg{
+	MaxEntries: 10, MaxDepth: 3, Names: []string{"a", "b", "ab", "a-b", "c", "d", "ro"},
+	Kinds:  []h.Kind{h.KFile, h.KFile, h.KFile, h.KSymlink, h.KFifo},
+	Xattrs: true, XattrNS: []string{"user."}, Hardlinks: true, BigFiles: true,
+	Uids:       []uint32{1000},
+	SymTargets: []string{"a", "../b", "dangling", "/a"},
+}
+
+func unprivNormalize(t *h.Tree) {
+	if t == nil {
+		return
+	}
+	for i := range t.Nodes {
+		n := &t.Nodes[i]
+		n.Uid, n.Gid = 1000, 1000
+		switch n.Kind {
+		case h.KDir:
+			n.Perm |= 0o700 // an unprivileged transfer cannot work inside a directory it cannot write
+			n.Perm &^= 0o7000
+		case h.KFile:
+			n.Perm |= 0o400 // the sender must be able to read it
+		}
+	}
+	t.Normalize()
+}
+
+func genC01Unpriv(t *rapid.T) *c01UnprivCase {
+	c := &c01UnprivCase{Src: h.GenTree(t, c01UnprivCfg, "src")}
+	// read-only and set-id files are the point of this configuration
+	for i := range c.Src.Nodes {
+		if n := &c.Src.Nodes[i]; n.Kind == h.KFile && rapid.IntRange(0, 2).Draw(t, fmt.Sprintf("ro%d", i)) == 0 {
+			n.Perm = rapid.SampledFrom([]uint32{0o444, 0o400, 0o4555, 0o2555, 0o6755, 0o4755, 0o555}).Draw(t, fmt.Sprintf("roperm%d", i))
+		}
+	}
+	switch rapid.IntRange(0, 2).Draw(t, "dstmode") {
+	case 1:
+		c.Dst = h.GenTree(t, c01UnprivCfg, "dst")
+	case 2:
+		d := c.Src
+		for i := 0; i < rapid.IntRange(1, 4).Draw(t, "nedits"); i++ {
+			d, _ = h.GenEdit(t, d, fmt.Sprintf("e%d", i), c01UnprivCfg.Names)
+		}
+		c.Dst = d
+	}
+	unprivNormalize(c.Src)
+	unprivNormalize(c.Dst)
+	h.AlignIdentical(c.Src, c.Dst, false, 0, 0)
+	c.DiffNone = rapid.IntRange(0, 3).Draw(t, "diffnone") == 0
+	c.Notify = rapid.Bool().Draw(t, "notify")
+	c.Capacity = rapid.SampledFrom([]int{0, 8, 64}).Draw(t, "cap")
+	return c
+}
+
+type c01JailArg struct {
+	DiffNone bool `json:"diffnone"`
+	Notify   bool `json:"notify"`
+	Capacity int  `json:"capacity"`
+}
+
+type c01JailResult struct {
+	SendErr string `json:"senderr"`
+	RecvErr string `json:"recverr"`
+	Stuck   bool   `json:"stuck"`
+	Uid     int    `json:"uid"`
+}
+
+// jailSync runs inside the chroot as the unprivileged user.
+func jailSync(raw json.RawMessage) (any, error) {
+	var a c01JailArg
+	if err := json.Unmarshal(raw, &a); err != nil {
+		return nil, err
+	}
+	f, err := fsutil.NewFS("/src")
+	if err != nil {
+		return nil, err
+	}
+	opt := fsutil.ReceiveOpt{}
+	if a.DiffNone {
+		opt.Differ = fsutil.DiffNone
+	}
+	var nl h.NotifyLog
+	if a.Notify {
+		opt.NotifyHashed = nl.Fn
+		opt.ContentHasher = h.Hasher
+	}
+	res := h.RunSync(f, "/dst", h.SyncOpt{Capacity: a.Capacity, Recv: opt})
+	out := &c01JailResult{Stuck: res.Stuck != "", Uid: os.Getuid()}
+	if res.SendErr != nil {
+		out.SendErr = res.SendErr.Error()
+	}
+	if res.RecvErr != nil {
+		out.RecvErr = res.RecvErr.Error()
+	}
+	return out, nil
+}
+
+func c01UnprivCheck(env *h.Env, c *c01UnprivCase) error {
+	jail := filepath.Join(env.Scratch, "jail")
+	for _, d := range []string{"src", "dst"} {
+		p := filepath.Join(jail, d)
+		if err := os.MkdirAll(p, 0o755); err != nil {
+			return h.Infra(err)
+		}
+	}
+	if err := h.Materialise(c.Src, filepath.Join(jail, "src")); err != nil {
+		return h.Infra(err)
+	}
+	if c.Dst != nil {
+		if err := h.Materialise(c.Dst, filepath.Join(jail, "dst")); err != nil {
+			return h.Infra(err)
+		}
+	}
+	for _, d := range []string{"src", "dst"} {
+		if err := os.Chown(filepath.Join(jail, d), 1000, 1000); err != nil {
+			return h.Infra(err)
+		}
+	}
+	os.Chmod(jail, 0o755)
+	os.Chmod(env.Scratch, 0o755)
+	before, err := h.Snapshot(filepath.Join(jail, "dst"))
+	if err != nil {
+		return h.Infra(err)
+	}
+	var res c01JailResult
+	if err := runJailed(jail, "sync", 1000, c01JailArg{DiffNone: c.DiffNone, Notify: c.Notify, Capacity: c.Capacity}, &res); err != nil {
+		return h.Infra(err)
+	}
+	if res.Uid != 1000 {
+		return h.Infra(fmt.Errorf("helper ran as uid %d", res.Uid))
+	}
+	env.Class("unprivileged-receiver")
+	if res.Stuck {
+		env.Class("stuck")
+		return nil
+	}
+	if res.SendErr != "" || res.RecvErr != "" {
+		env.Class("rejected")
+		env.Note("send_err", res.SendErr)
+		env.Note("recv_err", res.RecvErr)
+		return nil
+	}
+	after, err := h.Snapshot(filepath.Join(jail, "dst"))
+	if err != nil {
+		return h.Infra(err)
+	}
+	ro, setid := false, false
+	for _, n := range c.Src.Nodes {
+		if n.Kind == h.KFile && n.Perm&0o222 == 0 {
+			ro = true
+		}
+		if n.Kind == h.KFile && n.Perm&0o6000 != 0 && n.Size > 0 {
+			setid = true
+		}
+	}
+	if ro {
+		env.Class("read-only-file")
+		env.NonTrivial()
+	}
+	if setid {
+		env.Class("set-id-file-with-content")
+		env.NonTrivial()
+	}
+	if c.Dst != nil && len(c.Dst.Nodes) > 0 {
+		env.NonTrivial()
+	}
+	if errs := convergenceErrs(after, before, c.Src, 0); errs.Len() > 0 {
+		return fmt.Errorf("unprivileged receiver (uid 1000, differ-none=%v): destination differs from the source view: %v", c.DiffNone, errs.Err())
+	}
+	return nil
 }
